@@ -19,6 +19,7 @@ CONSTANTS
   Weak_InitMarksPartsHad = FALSE
   Weak_VoteMarkedBeforeRoundCheck = FALSE
   AllowedGaps <- AllGaps
+  StrictGaps = {}
   NodeMenu = {}
   PeerMenu = {}
   Modes = {}
